@@ -114,4 +114,21 @@ theorem dealer_refused_send_changes_nothing (d : Dealer) (m : Nat)
     Dealer.step currentDealerCfg d (.send m) = { d with refused := d.refused ++ [m] } :=
   Dealer.refused_send_changes_nothing _ d m h
 
+/-- … and it is refused only for cause, in every reachable state: the pending queue holds SNDHWM messages, and the message
+could not go straight to the pipe (the pipe is full, or older messages are still pending and go first); the pending messages
+are real (the counter equals what is pending plus what the processor holds) -/
+theorem dealer_refuses_only_at_the_high_water_mark (cap hwm : Nat) (evs : List DealerEv) (m : Nat) :
+    let d := Dealer.run currentDealerCfg { cap := cap, hwm := hwm } evs
+    (Dealer.step currentDealerCfg d (.send m)).accepted = d.accepted →
+      max hwm 1 ≤ d.pending.length ∧ (max cap 1 ≤ d.pipe.length ∨ 0 < d.pending.length + d.hand.toList.length) := by
+  intro d h
+  have hr := Dealer.refusal_only_when_full _ d m h
+  have hi : d.Inv := by
+    show (Dealer.run currentDealerCfg { cap := cap, hwm := hwm } evs).Inv
+    rw [C01.dealer_source_shape]; exact Dealer.run_inv _ evs (Dealer.inv_init cap hwm)
+  have hh : d.hwm = hwm := Dealer.run_hwm _ _ evs
+  have hc : d.cap = cap := Dealer.run_cap _ _ evs
+  rw [hh, hc, hi.count] at hr
+  exact hr
+
 end Rzmq.C14
